@@ -296,6 +296,16 @@ def evaluate(case) -> Outcome:
                             out.add(f"C15/find/raises/{exc_sig(found)}", f"after {what}: find({search!r}) raised {found!r}")
                         elif s2 not in found:
                             out.add("C15/existing-entity-not-found-by-search", f"after {what}: {s2!r} not in FindInPaths.find({search!r}) = {found}")
+                        else:
+                            # "exactly from the moment it ... was created": nothing but the created entities (and their ancestors) is found
+                            try:
+                                expf = sorted({e[2] for e in (world.search(search, "paths") or {}).values()})
+                            except refsearch.RefSpilException:
+                                expf = None
+                            if expf is not None and sorted(set(found)) != expf:
+                                extra = sorted(set(found) - set(expf))
+                                sig = "C15/search-finds-something-never-created" if extra else "C15/search-misses-existing-entities"
+                                out.add(sig, f"after {what}: FindInPaths.find({search!r}) = {sorted(found)}, existing according to the model: {expf}")
                     # ancestors with a path exist
                     for tt, ff in gens.ancestors(m, inf2["t"], inf2["f"]):
                         if pm.has_path(tt):
